@@ -586,6 +586,8 @@ def gen_C17(rng, tier):
             cmds = [('get_match', 'doc', p0, False, False),
                     ('iter', ('match', 0), p, False, False), ('drain', 0, 30, 1), ('iter', ('match', 0), p, False, True), ('drain', 1, 30, 1)]
         out.append(Q({'doc': d, 'cmds': cmds}))
+    # the library's own tracer: log_to(lines.append) against the model of trace._log (Builder.v log_line)
+    out += [{'family': 'b', 'case': bcase.gen_bcase(rng, log=True)} for _ in range(sized(tier, 300, 4000))]
     return out
 
 
@@ -602,6 +604,8 @@ def only_traces_removed(ev_untraced, ev_traced):
 
 def oracle_C17(case, o):
     errs = []
+    if case['family'] != 'q':
+        return errs
     cmds = case['case']['cmds']
     drains = scan(o, 'drain')
     if len(drains) == 2:
@@ -631,6 +635,8 @@ def oracle_C17(case, o):
 
 
 def nontrivial_trace(case, o):
+    if case['family'] == 'b':
+        return any(len(x[2]) >= 3 for x in scan(o, 'lines'))
     return len(scan(o, 'trace')) >= 3 and n_results(o) >= 1
 
 
@@ -796,7 +802,9 @@ REGISTRY = {
                      "also from a Match; non-trivial = >= 2 parent steps and >= 1 result", obligations=[]),
     'C17': dict(level='proof', gen=gen_C17, oracle=oracle_C17, nontrivial=nontrivial_trace,
                 rule="the same query traced and untraced (iterators, get_match, get, from a Match); non-trivial = >= 3 trace "
-                     "events and >= 1 result", obligations=[]),
+                     "events and >= 1 result; plus builder histories drained under the library's own tracer "
+                     "log_to(lines.append), the lines compared with the model of trace._log (repr quoting, escaping, "
+                     "20-character cut, vertex segments)", obligations=[]),
     'C20': dict(level='proof', gen=gen_C20, oracle=lambda c, o: oracle_C20(c, o) if c['family'] == 'q' else [],
                 nontrivial=lambda c, o: len(scan(o, 'trace')) >= 5 or c['family'] == 'c',
                 rule="traced drains on documents up to 60 nodes (has-family filters included); cyclic dict/list structures of "
